@@ -200,7 +200,7 @@ func runC05(s *core.Sim, tier string) RunInfo {
 	if degenerate {
 		to = core.Pick(s.Tape, "deg-to", []uint64{0, 1, fromH - 1, fromH, fromH + 1})
 	} else {
-		maxL := 3 * chunk
+		maxL := 6 * chunk // (up to seven sub-requests: more than the peers can take at once)
 		if maxL > 40 {
 			maxL = 40
 		}
